@@ -943,6 +943,110 @@ example : returned (calculate T0 1 { count := some 4 } { c2c := some 2, total :=
     returned (calculate T0 1 { count := some 4 } { c2c := some (1 / 2), total := some (1 / 8) }) =
       some (some 4, some (1 / 8)) ∧ TOL < absR (1 / (2 : ℚ) - 1) := by decide +kernel
 
+/-- (count, start size) reversed, end to end, for **every tolerance**: the chop `(count, end size = s)` with the mirrored
+    solver answer `1/c` resolves to the same count, the reciprocal ratio and the reciprocal total expansion — the root
+    validator of the reversed chop (`rootOK s (1/(1/c))`) is literally the one the original passed, the near-uniform branch
+    is taken by both or by neither.  (`count ≥ 2`: one cell with a smaller start size is the known finding.) -/
+theorem T_C03_invert_count_start {t : Tol} {L s : ℚ} {n : ℕ} {o : Oracle} {res : Vals} (hn : 2 ≤ n)
+    (h : calculate t L o { count := some n, start := some s } = .ok res) :
+    ∃ c, res.c2c = some c ∧ 0 < c ∧
+      ∃ res', calculate t L { o with c2c := some (1 / c) } { count := some n, end_ := some s } = .ok res' ∧
+        res'.count = res.count ∧ res'.total = res.total.map (fun T => 1 / T) ∧ res'.c2c = some (1 / c) := by
+  obtain ⟨c, T, e, hc, hT, he, rfl⟩ := pair_count_start h
+  obtain ⟨hL, hn1, hs0, hsL, hcase⟩ := c2cCountStart_ok hc
+  obtain ⟨_, _, _, hTv⟩ := totalCountC2c_ok hT
+  have hc0 : 0 < c := by
+    rcases hcase with ⟨_, rfl⟩ | ⟨_, _, rfl⟩ | ⟨_, _, _, hok⟩
+    · exact one_pos
+    · exact one_pos
+    · exact (rootOK_iff.mp hok).1
+  have hci : 0 < 1 / c := by positivity
+  have hend : c2cCountEnd t { o with c2c := some (1 / c) } L n s = .ok (1 / c) := by
+    unfold c2cCountEnd
+    simp only [guardLen_bind, guardCountGe1_bind, guardSize_bind]
+    rw [if_neg (not_le.mpr hL), if_neg (by omega), if_neg (not_le.mpr hs0)]
+    rcases hcase with ⟨h1, _⟩ | ⟨_, hu, rfl⟩ | ⟨_, hnu, _, hok⟩
+    · omega
+    · rw [if_pos hu]; simp [pure, Except.pure]
+    · rw [if_neg (not_lt.mpr hnu), if_neg (by omega)]
+      unfold oracleC2c
+      simp only [one_div_one_div]
+      rw [if_pos hok]
+      rfl
+  obtain ⟨s', hs'⟩ := startCountC2c_ok_of_pos (n := n) hL hn1 hci
+  refine ⟨c, rfl, hc0, (⟨some n, some s', some s, some (1 / c), some ((1 / c) ^ (n - 1))⟩ : Vals), ?_, rfl, ?_, rfl⟩
+  · rw [calculate_ok_iff (k := 1) (by exact plan_count_end), runSteps3]
+    refine ⟨{ count := some n, end_ := some s, c2c := some (1 / c) },
+      { count := some n, start := some s', end_ := some s, c2c := some (1 / c) }, ?_, ?_, ?_⟩
+    · simp only [applyRel, map_ok]
+      exact ⟨1 / c, hend, rfl⟩
+    · simp only [applyRel, map_ok]
+      exact ⟨s', hs', rfl⟩
+    · simp only [applyRel, map_ok]
+      refine ⟨_, ?_, rfl⟩
+      unfold totalCountC2c
+      simp only [guardLen_bind, guardCountGe1_bind, guardRatio_bind]
+      rw [if_neg (not_le.mpr hL), if_neg (by omega), if_neg (ne_of_gt hci)]
+      rfl
+  · simp only [Option.map_some, hTv, one_div, inv_pow]
+
+
+example : returned (calculate T0 1 { c2c := some 2 } { count := some 3, start := some (1 / 7) }) = some (some 3, some 4) ∧
+    returned (calculate T0 1 { c2c := some (1 / 2) } { count := some 3, end_ := some (1 / 7) }) =
+      some (some 3, some (1 / 4)) := by decide +kernel
+
+/-- (count, end size) reversed likewise (the start-size relation additionally demands `size < length`). -/
+theorem T_C03_invert_count_end {t : Tol} {L e : ℚ} {n : ℕ} {o : Oracle} {res : Vals} (hn : 2 ≤ n) (heL : e < L)
+    (h : calculate t L o { count := some n, end_ := some e } = .ok res) :
+    ∃ c, res.c2c = some c ∧ 0 < c ∧
+      ∃ res', calculate t L { o with c2c := some (1 / c) } { count := some n, start := some e } = .ok res' ∧
+        res'.count = res.count ∧ res'.total = res.total.map (fun T => 1 / T) ∧ res'.c2c = some (1 / c) := by
+  obtain ⟨c, s, T, hc, hs, hT, rfl⟩ := pair_count_end h
+  obtain ⟨hL, hn1, he0, hcase⟩ := c2cCountEnd_ok hc
+  obtain ⟨_, _, _, hTv⟩ := totalCountC2c_ok hT
+  have hc0 : 0 < c := by
+    rcases hcase with ⟨_, rfl⟩ | ⟨_, _, _, hok⟩
+    · exact one_pos
+    · exact one_div_pos.mp (rootOK_iff.mp hok).1
+  have hci : 0 < 1 / c := by positivity
+  have hTi : (1 / c) ^ (n - 1) ≠ 0 := pow_ne_zero _ (ne_of_gt hci)
+  have hstart : c2cCountStart t { o with c2c := some (1 / c) } L n e = .ok (1 / c) := by
+    unfold c2cCountStart
+    simp only [guardLen_bind, guardCountGe1_bind]
+    rw [if_neg (not_le.mpr hL), if_neg (by omega), if_neg (not_not.mpr ⟨heL, he0⟩), if_neg (by omega)]
+    rcases hcase with ⟨hu, rfl⟩ | ⟨_, hnu, _, hok⟩
+    · rw [if_pos hu]; simp [pure, Except.pure]
+    · rw [if_neg (not_lt.mpr hnu)]
+      unfold oracleC2c
+      simp only
+      rw [if_pos hok]
+      rfl
+  refine ⟨c, rfl, hc0, (⟨some n, some e, some (e * (1 / c) ^ (n - 1)), some (1 / c), some ((1 / c) ^ (n - 1))⟩ : Vals),
+    ?_, rfl, ?_, rfl⟩
+  · rw [calculate_ok_iff (k := 2) (by exact plan_count_start), runSteps3]
+    refine ⟨{ count := some n, start := some e, c2c := some (1 / c) },
+      { count := some n, start := some e, c2c := some (1 / c), total := some ((1 / c) ^ (n - 1)) }, ?_, ?_, ?_⟩
+    · simp only [applyRel, map_ok]
+      exact ⟨1 / c, hstart, rfl⟩
+    · simp only [applyRel, map_ok]
+      refine ⟨_, ?_, rfl⟩
+      unfold totalCountC2c
+      simp only [guardLen_bind, guardCountGe1_bind, guardRatio_bind]
+      rw [if_neg (not_le.mpr hL), if_neg (by omega), if_neg (ne_of_gt hci)]
+      rfl
+    · simp only [applyRel, map_ok]
+      refine ⟨_, ?_, rfl⟩
+      unfold endStartTotal
+      simp only [guardLen_bind, guardRatio_bind]
+      rw [if_neg (not_le.mpr hL), if_neg hTi]
+      rfl
+  · simp only [Option.map_some, hTv, one_div, inv_pow]
+
+
+example : returned (calculate T0 1 { c2c := some 2 } { count := some 3, end_ := some (4 / 7) }) = some (some 3, some 4) ∧
+    returned (calculate T0 1 { c2c := some (1 / 2) } { count := some 3, start := some (4 / 7) }) =
+      some (some 3, some (1 / 4)) := by decide +kernel
+
 /-! ### 7b. histories on one `Chop` object: `calculate` keeps no memory -/
 
 /-- Every `calculate` inside a history of calls on one object answers exactly what a fresh chop with the current
@@ -1272,6 +1376,59 @@ example : (run (primsCountTotalC2c T0 {}) (relEnv ⟨.start, .count, .c2c⟩ 1 3
     (run (primsCountTotalC2c T0 {}) (relEnv ⟨.start, .count, .c2c⟩ 1 3 0) body_start_count_c2c).toOption = none ∧
     (run (primsCountTotalC2c T0 { count := some 4 }) (relEnv ⟨.count, .total, .c2c⟩ 1 8 2) body_count_total_c2c).toOption
       = some 4 := by decide +kernel
+
+/-- The solver contract stated on the source: the function the body of `get_c2c_expansion__count__start_size` /
+    `…__count__end_size` hands to `scipy.optimize.brentq` (`fexp`, as *translated* from the current source and evaluated
+    exactly by `solverFn` at a rational point `c ≠ 1`) has a value `y`, and the validator of the `brentq` slot
+    (`rootOK`, used by the model and by `T_C03_translated_c2c`) says exactly: the returned ratio is positive and
+    `|size · y| ≤ ε · length` — the residual of the translated function, scaled by the cell size. -/
+theorem T_C03_translated_solver_fn {ε L x c : ℚ} {n : ℕ} (hx : x ≠ 0) (hc : c ≠ 1) :
+    (∃ y, solverFn (relEnv ⟨.c2c, .count, .start⟩ L n x) body_c2c_count_start c = .ok y ∧
+      rootOK ε x c L n = (decide (0 < c) && decide (absR (x * y) ≤ ε * L))) ∧
+    (n ≠ 0 → c ≠ 0 → ∃ y, solverFn (relEnv ⟨.c2c, .count, .end_⟩ L n x) body_c2c_count_end c = .ok y ∧
+      rootOK ε x (1 / c) L n = (decide (0 < c) && decide (absR (x * y) ≤ ε * L))) :=
+  ⟨⟨_, solverFn_c2c_count_start hx hc, rootOK_start_resid hx hc⟩,
+   fun hn hc0 => ⟨_, solverFn_c2c_count_end hn hx hc hc0, rootOK_end_resid hn hx hc hc0⟩⟩
+
+/-- the translated `fexp` evaluates: 3 cells of first size 1/7 on a unit edge have the root 2 (residual 0), not 3 -/
+example : (solverFn (relEnv ⟨.c2c, .count, .start⟩ 1 3 (1 / 7)) body_c2c_count_start 2).toOption = some 0 ∧
+    (solverFn (relEnv ⟨.c2c, .count, .start⟩ 1 3 (1 / 7)) body_c2c_count_start 3).toOption = some 6 ∧
+    (solverFn (relEnv ⟨.c2c, .count, .end_⟩ 1 3 (4 / 7)) body_c2c_count_end 2).toOption = some 0 ∧
+    rootOK 0 (1 / 7) 2 1 3 = true ∧ rootOK 0 (1 / 7) 3 1 3 = false := by decide +kernel
+
+/-- `Chop.__post_init__` interpreted from the source as it is now (`cbv/tables/c03.py` reads the list of counted
+    attributes, the threshold of `len(params) - params.count(None) < 2`, the defaulted attribute with its value and the
+    clamp `max(int(self.count), 1)` with `ast`): for all constructor arguments it is the model's `postInit`. -/
+theorem T_C03_translated_post_init (count : Option Int) (start end_ c2c total : Option ℚ) :
+    postInitGen CBV.Gen.c03PostInit count start end_ c2c total = some (postInit count start end_ c2c total) :=
+  postInitGen_eq count start end_ c2c total
+
+/-- the interpretation reacts to its table: with threshold 3 a chop given two parameters would get `c2c = 1` as well -/
+example : (postInitGen CBV.Gen.c03PostInit (some 0) none none none none).map (fun v => (v.count, v.c2c)) = some (some 1, some 1) ∧
+    (postInitGen (["start_size", "end_size", "count", "total_expansion", "c2c_expansion"], 3, ("c2c_expansion", 1), ("count", 1))
+      (some 5) (some (1 / 10)) none none none).map (·.c2c) = some (some 1) ∧
+    (postInitGen CBV.Gen.c03PostInit (some 5) (some (1 / 10)) none none none).map (·.c2c) = some none := by decide +kernel
+
+/-- `Chop.copy_preserving` interpreted from the source as it is now (its seven statements are matched one by one with
+    `ast`: arguments from `dataclasses.asdict(self)`, `args["count"] = self.results["count"]`, the list of keys set to
+    `None`, the preserved quantity from `results`, `Chop(**args)` — i.e. the interpreted `__post_init__` —, the conditional
+    `invert()`): for every object whose last results hold a count `>= 1` (what `calculate` returns) and both flags it is
+    the model's `copyPreserving`.  In particular the copy depends on the chop's own parameters not at all: every one of
+    the four sizes / ratios is cleared before the preserved one is set. -/
+theorem T_C03_translated_copy_preserving (ob : Obj) (inverted : Bool)
+    (hn : ∀ res n, ob.last = some res → res.count = some n → 1 ≤ n) :
+    copyGen CBV.Gen.c03CopyPreserving CBV.Gen.c03PostInit ob inverted = copyPreserving ob inverted :=
+  copyGen_eq ob inverted hn
+
+/-- a chop (start 1/10, ratio 2) with results (3 cells, …): the reversed copy is (3, ratio 1/2); an interpretation whose
+    cleared list forgets `start_size` would carry the chop's own start size into the copy -/
+example :
+    let ob : Obj := { params := { start := some (1 / 10), c2c := some 2 },
+                      last := some { count := some 3, start := some (1 / 7), end_ := some (4 / 7), c2c := some 2, total := some 4 } }
+    (copyGen CBV.Gen.c03CopyPreserving CBV.Gen.c03PostInit ob true).toOption = some { count := some 3, c2c := some (1 / 2) } ∧
+    (copyPreserving ob true).toOption = some { count := some 3, c2c := some (1 / 2) } ∧
+    (copyGen (("count", "count"), ["total_expansion", "c2c_expansion", "end_size"], true) CBV.Gen.c03PostInit ob false).toOption =
+      some { count := some 3, start := some (1 / 10), c2c := some 2 } := by decide +kernel
 
 /-- `Chop.invert`, statement by statement as the source has it now (tuple swap of the sizes, `1 / c2c_expansion` and
     `1 / total_expansion` under their `is not None` tests, the `preserve` field moved to the other end — in this order):
